@@ -842,6 +842,7 @@ def normalised_copy(chk):
 
 
 MUTANTS = [
+    ("reader forgets single-precision complex", "yastn/tensor/__init__.py", "for name in ('float32', 'float64', 'complex64', 'complex128', 'bool'):", "for name in ('float32', 'float64', 'complex128', 'bool'):", "Z8"),
     ("drop trans from to_dict", "yastn/tensor/_output.py", "         'trans': a.trans,\n", "", "Z1"),
     ("drop pC from MPS to_dict", "yastn/tn/mps/_mps_parent.py", "                'pC': psi.pC,\n", "", "Z1"),
     ("rename key on one side", "yastn/tn/fpeps/_doublePepsTensor.py", "trans=d['transpose']", "trans=d['trans']", "Z2"),
